@@ -72,6 +72,8 @@ M = [
      "        for cid in set(self.client_cids) | set(self.server_cids):\n            if cid == packet.tls_data[1:1 + len(cid)]:"),
     ("retry_id_matches_short_headers_again", "C02", "tlexport/quic/quic_session.py",
      "            candidates = self.server_cids - self.handshake_only_cids\n", "            candidates = self.server_cids\n"),
+    ("migrated_packet_first_matching_session_wins", "C04", "tlexport/main.py",
+     "                    if longest_match is None or len(cid) > len(longest_match[1]):\n", "                    if longest_match is None:\n"),
     ("module_state_sessions_not_cleared", "C18", "tlexport/main.py",
      "    keylog.clear()\n    sessions.clear()\n", "    keylog.clear()\n"),
     ("quic_short_header_mask_bits", "C02", "tlexport/quic/quic_dissector.py",
